@@ -188,7 +188,7 @@ def model(ctx, name, n, sym, nxt, edge, workers=1):
     return res
 
 
-def replay(ctx, res, n, sym, family, depth, nrandom, rdepth, budget=None):
+def replay_graph(ctx, res, n, sym, family, depth, nrandom, rdepth, budget=None):
     g = Graph(res.records.get('EDGE', []), res.records.get('INIT'))
     if not g.inits or g.n_edges == 0:
         raise MachineryError('no graph exported for ' + family)
@@ -216,14 +216,14 @@ def run(ctx):
                         'assignment/read/iterate/mutate only in the thorough tier']
     # PairTable, 2 types, symmetric: complete graph, every edge, all paths to depth D
     r = model(ctx, 'PairTable N=2 sym', 2, True, 'NextPT', True)
-    replay(ctx, r, 2, True, 'replay.PairTable.N2', 3 if thorough else 2,
+    replay_graph(ctx, r, 2, True, 'replay.PairTable.N2', 3 if thorough else 2,
            20000 if thorough else 1500, 14, budget=None if thorough else 400000)
     edges = r.records.get('EDGE', [])
     ctx.sample({'edge': edges[len(edges) // 2]})
     ctx.sample({'edge': edges[-1]})
     # ValueTable, 3 types
     r = model(ctx, 'ValueTable N=3', 3, True, 'NextVT', True)
-    replay(ctx, r, 3, True, 'replay.ValueTable.N3', 3 if thorough else 2, 3000 if thorough else 500, 12)
+    replay_graph(ctx, r, 3, True, 'replay.ValueTable.N3', 3 if thorough else 2, 3000 if thorough else 500, 12)
     # PairTable, 3 types: TLC checks the invariants exhaustively on every tier (no export: 10^7 edges);
     if thorough:
         r = model(ctx, 'PairTable N=3 sym (invariants only)', 3, True, 'NextPT', False, workers=16)
